@@ -37,6 +37,10 @@ func main() {
 		w := bufio.NewWriterSize(os.Stdout, 1<<16)
 		h.Worker(prop, st, atoi(a[3]), atoi(a[4]), atoi(a[5]), atoi(a[6]), a[7], w)
 		w.Flush()
+	case "raceworker":
+		a := os.Args[2:]
+		atoi := func(s string) int { n, _ := strconv.Atoi(s); return n }
+		h.RacePassWorker(a[0], a[1], atoi(a[2]), atoi(a[3]), atoi(a[4]), a[5])
 	case "replay":
 		os.Exit(h.ReplayFile(os.Args[2]))
 	case "sizes":
